@@ -196,26 +196,26 @@ theorem coalesceGo_fixed : ∀ (s : Stream), noAdjText s = true →
         rw [coalesceGo_nontext true none e _ h']
         simp [flushBuf, ih]
 
-theorem coalesceGo_allPlain : ∀ (s : Stream) (buf : Option Str) (t : Str) (b : Bool),
-    Event.text t b ∈ coalesceGo true buf s → b = false
-  | [], buf, t, b, h => by cases buf <;> simp_all [coalesceGo, flushBuf]
+theorem coalesceGo_allPlain (f : Bool) : ∀ (s : Stream) (buf : Option Str) (t : Str) (b : Bool),
+    Event.text t b ∈ coalesceGo f buf s → b = false
+  | [], buf, t, b, h => by cases f <;> cases buf <;> simp_all [coalesceGo, flushBuf]
   | e :: es, buf, t, b, h => by
       by_cases ht : isText e = true
       · obtain ⟨s, b', rfl⟩ := (isText_iff e).1 ht
         rw [coalesceGo_text] at h
-        exact coalesceGo_allPlain es _ t b h
+        exact coalesceGo_allPlain f es _ t b h
       · have h' : isText e = false := by simpa using ht
-        rw [coalesceGo_nontext true buf e es h'] at h
+        rw [coalesceGo_nontext f buf e es h'] at h
         simp only [List.mem_append, List.mem_cons] at h
         rcases h with h | h | h
         · cases buf <;> simp_all [flushBuf]
         · subst h; simp [isText] at h'
-        · exact coalesceGo_allPlain es none t b h
+        · exact coalesceGo_allPlain f es none t b h
 
 /-- `_coalesce` is idempotent -/
 theorem coalesce_idem (s : Stream) : coalesce (coalesce s) = coalesce s := by
   unfold coalesce
-  exact coalesceGo_fixed _ (noAdjText_coalesceGo true s none) (coalesceGo_allPlain s none)
+  exact coalesceGo_fixed _ (noAdjText_coalesceGo true s none) (coalesceGo_allPlain true s none)
 
 /-! ### the loop: `feed` with its queue against a queue-free run -/
 
@@ -365,6 +365,15 @@ theorem parse_vs_eager {κ cb : Type} (L : Layer κ cb) (handler : PyExc → Rai
       obtain ⟨t, ht⟩ := h2
       rw [← ht]
       exact coalesceGo_prefix true evs t none
+
+/-- whatever `parse` delivers, its TEXT events carry plain `str` data (never `Markup`) -/
+theorem parse_text_plain {κ cb : Type} (L : Layer κ cb) (handler : PyExc → Raised) (k : κ)
+    (reads : List (Read cb)) (close : List (Item cb)) (t : Str) (b : Bool)
+    (h : Event.text t b ∈ (parse L handler k reads close).1) : b = false := by
+  unfold parse at h
+  split at h
+  · exact coalesceGo_allPlain true _ none t b h
+  · exact coalesceGo_allPlain false _ none t b h
 
 /-! ### `mkQName` -/
 
